@@ -351,7 +351,7 @@ impl Prop for C01 {
         ]
     }
     fn cases(&self, tier: Tier) -> u32 {
-        tier.pick(20_000, 600_000)
+        tier.pick(100_000, 600_000)
     }
     fn enumerated_subspaces(&self, _tier: Tier) -> Vec<String> {
         vec![
